@@ -15,7 +15,7 @@ contract("find.extract_reference_citations",
                      "and 0 <= citation.span()[0] and citation.span()[0] <= citation.span()[1]",
               "doc": RF["DOC_WF"], "roundtrip": RF["ROUNDTRIP"]},
     locals_types={"reference_citations": "seq[obj<ReferenceCitation>]"},
-    ensures={"refs_spans": "result is not None and forall(lambda j: implies(0 <= j and j < len(result), result[j] is not None and alive(result[j]) and cit_wf(result[j]) "
+    ensures={"refs_spans": "result is not None and forall(lambda j: implies(0 <= j and j < len(result), result[j] is not None and alive(result[j]) and alive(result[j].metadata) and cit_wf(result[j]) and isinstance(result[j], ReferenceCitation) "
                            "and SPANS(result[j], document.plain_text) and result[j].span_start >= citation.span()[0]))"})
 
 # ------------------------------------------------------------------------------------------------ Document construction and tokenization (assumed, pinned)
@@ -80,7 +80,7 @@ def _year_def(c):
 def _cits(c, t):
     rng = f"0 <= j and j < len({c})"
     return {"notnone": f"{c} is not None and forall(lambda j: implies({rng}, {c}[j] is not None))",
-            "alive": f"forall(lambda j: implies({rng}, alive({c}[j])))",
+            "alive": f"forall(lambda j: implies({rng}, alive({c}[j]) and {c}[j].metadata is not None and alive({c}[j].metadata)))",
             "wf": f"forall(lambda j: implies({rng}, cit_wf({c}[j])))",
             # C02 for every citation, w.r.t. the cleaned text of the document
             "spans": f"forall(lambda j: implies({rng}, SPANS({c}[j], {t})))",
@@ -91,6 +91,9 @@ def _cits(c, t):
 contract("find.get_citations",
     types={"plain_text": "str", "remove_ambiguous": "bool", "tokenizer": "obj<Tokenizer>", "markup_text": "str", "clean_steps": "seq[str]"},
     returns="seq[obj<CitationBase>]", noraise=True, prop="C02",
+    # no frame obligation: the objects get_citations mutates (is_parallel_citation on the citation just built) are allocated inside the call, but the
+    # extractor contracts do not state freshness of their results
+    frame_check=False,
     requires={"args": "plain_text is not None and remove_ambiguous is not None and tokenizer is not None and steps_valid(markup_text, clean_steps)",
               # the canned easter-egg citation (known finding C02-4) is outside the contract
               "not_easter_egg": "plain_text != 'eyecite'"},
@@ -98,8 +101,20 @@ contract("find.get_citations",
     ghost={"doc": "obj<Document>"},
     ghost_args={"_extract_full_citation": _EX, "_extract_shortform_citation": _EX, "_extract_id_citation": _EX, "_extract_supra_citation": _EX},
     defs={"YS_citations": _year_def("citations"), "YS_result": _year_def("result")},
+    props={"ordered_by_span": "C03", "distinct_spans": "C03", "years": "C18"},
     ensures=dict(_cits("result", "ghost.doc.plain_text"),
+        # C03 at the API: document order, no two returned citations with identical spans (filter_citations' postconditions carried through remove_ambiguous)
+        ordered_by_span="forall(lambda j, j2: implies(0 <= j and j < j2 and j2 < len(result), result[j].span() <= result[j2].span()))",
+        distinct_spans="forall(lambda j, j2: implies(0 <= j and j < j2 and j2 < len(result), result[j].span() != result[j2].span()))",
         text_is_input= "implies((markup_text is None or markup_text == '') and (clean_steps is None or len(clean_steps) == 0), ghost.doc.plain_text == plain_text)"))
 ghost_code("find.get_citations", "after:Assign#1", "ghost.doc = document")
 loop("find.get_citations", 1,
     invariant=dict(_cits("citations", "document.plain_text"), doc="document is ghost.doc"))
+# lemma steps
+ghost_code("find.get_citations", "after:Assign#10",
+    "assert document.words[i] is token and isinstance(token, Token), 'unknown_token_is_word'\n"
+    "assert token.start is not None and token.end is not None, 'unknown_token_offsets'\n"
+    "assert 0 <= token.start and token.start <= token.end and token.end <= len(document.plain_text), 'unknown_token_in_text'\n"
+    "assert str(token) == document.plain_text[token.start:token.end], 'unknown_token_text'")
+ghost_code("find.get_citations", "after:Assign#10", "assert cit_wf(citation) and alive(citation) and alive(citation.metadata), 'unknown_citation_wf'\nassert SPANS(citation, document.plain_text), 'unknown_citation_spans'")
+ghost_code("find.get_citations", "after:Assign#11", "assert citations is not None, 'filtered_not_none'\nassert forall(lambda j: implies(0 <= j and j < len(citations), citations[j] is not None)), 'filtered_elems_not_none'")
